@@ -1,6 +1,6 @@
 """C12 — every emitted TR-31 key block and header string is well-framed."""
 from core import Case, call_impl
-from props.tr31util import VERS, rb, rs, rand_blocks, make_header, header_tuple, wrap_case, tr31, Session, clone_header
+from props.tr31util import VERS, rb, rs, rand_blocks, make_header, header_tuple, wrap_case, tr31, Session, clone_header, pick_id
 
 OBLIGATIONS = ["Psec.Props.C12.wrap_framing", "Psec.Props.C12.str_reload", "Psec.Props.C12.pad_block_arith", "Psec.Tr31.blocksDump_shape", "Psec.Tr31.blocksDump_printable"]
 TABLE_OBLIGATIONS = ["Psec.Tables.header_block_size_agree", "Psec.Tables.header_mac_len_agree", "Psec.Tables.ascii_pa_agree", "Psec.Tables.ascii_an_agree"]   # model = tables regenerated from the source (harness/tables.py)
@@ -116,11 +116,11 @@ def reused_header(c, rng):
         what = rng.choice(["str", "wrap", "version", "version", "setblock", "delblock", "alg", "load", "load", "unwrap", "update", "setdefault", "pop"])
         cur = se.kb.header.version_id
         if what == "update":
-            good = (rs(rng, 2).replace("P", "Q").replace("p", "q"), rs(rng, rng.randrange(0, 12)))
+            good = (pick_id(rng, se), rs(rng, rng.randrange(0, 12)))
             bad = rng.choice([None, None, (rs(rng, 2).replace("P", "Q").replace("p", "q"), "x\x07y"), ("K", "ABCDEFG"), ("T9", "caf\u00e9"), ("Q1", "ab\n")])
             se.update([good] + ([bad] if bad else []))
         elif what == "setdefault":
-            se.setdefault(rs(rng, 2).replace("P", "Q").replace("p", "q"), rng.choice([rs(rng, 5), "a\tb", "\x00"]))
+            se.setdefault(pick_id(rng, se), rng.choice([rs(rng, 5), "a\tb", "\x00"]))
         elif what == "pop":
             ks = list(se.kb.header.blocks)
             se.pop(rng.choice(ks) if ks and rng.random() < 0.8 else "ZZ")
@@ -144,7 +144,7 @@ def reused_header(c, rng):
         elif what == "alg":
             se.set(2, rng.choice("TDA0"))
         elif what == "setblock":
-            se.setblock(rs(rng, 2).replace("P", "Q").replace("p", "q"), rs(rng, rng.randrange(0, 30)))
+            se.setblock(pick_id(rng, se), rs(rng, rng.randrange(0, 30)))
         elif what == "delblock":
             ks = list(se.kb.header.blocks)
             if ks:
@@ -230,7 +230,7 @@ def generate(rng, tier, seed):
             else:
                 good = rs(rng, rng.randrange(1, 12))
                 pos = rng.choice([0, len(good) // 2, len(good) - 1, len(good)])
-                se.setblock(rs(rng, 2).replace("P", "Q").replace("p", "q"), good[:pos] + ch + good[pos:])
+                se.setblock(pick_id(rng, se), good[:pos] + ch + good[pos:])
         cur = se.kb.header.version_id
         r = se.str()
         if r.ok and not all(32 <= ord(x) <= 126 for x in r.value):
